@@ -17,10 +17,11 @@ ASSUMPTIONS = [
     "layer 1 (successful calls, refused calls and parent assignments aborted by a hook): the complete hook log equals the closed-form log derived from the protocol statement",
     "layer 2 (every call, also failed children assignments with rollbacks): the forest changes only between a _pre_detach/_post_detach pair (node leaves old parent) or a _pre_attach/_post_attach pair (node becomes last child of new parent)",
     "layer 3: in-hook snapshots show the documented before/after states",
+    "hooks are looked up on the node like any other method: classes that get them assigned after they were already in use, and per-instance callables, count (classes HLateNM/HLateLM/HInstNM)",
     "hook logs of failed children assignments are not prescribed by the statement; only layers 2 and 3 apply to them",
     "calls in which a hook edits the tree itself (plan 'evict': a per-node hook detaches the first other child of its parent argument, a *_children hook re-files the first listed child under another node) are judged by layer 3 and link consistency only",
 ]
-CLASS_SPECS = ["HNM", "HLM", "HNode", "HDictLM", ["HNode", "HAnyNode", "HSymlink", "HNM"], ["HLM", "HDictLM"]]
+CLASS_SPECS = ["HNM", "HLM", "HNode", "HDictLM", ["HNode", "HAnyNode", "HSymlink", "HNM"], ["HLM", "HDictLM"], "HLateNM", "HLateLM", "HInstNM"]
 
 
 def detach_of(state, n, old):
@@ -178,6 +179,17 @@ def check_case(case, acc):
         if isinstance(step.exc, RecursionError):
             acc.note("calls_ending_in_RecursionError_not_bracket_checked")  # unbounded rollback recursion, see KF-C03-4
             return
+        if isinstance(step.exc, mut.VetoBase):
+            # an interrupt-like exception (not an Exception) left a hook: the call ends there - no handler of the library
+            # reacts to it, so no further hook fires and nothing changes any more
+            first = min(step.raised)
+            if len(step.log) != first:
+                raise Violation("hooks-after-interrupt", "%s: a BaseException left hook call %d, yet %d more hook calls followed: %s" % (ctx, first, len(step.log) - first, step.log[first:]))
+            if step.post != step.snaps[first - 1]:
+                raise Violation("change-after-interrupt", "%s: a BaseException left hook call %d with the forest %s, afterwards it is %s" % (ctx, first, step.snaps[first - 1], step.post))
+            check_brackets(step)
+            stats["interrupted"] = stats.get("interrupted", 0) + 1
+            return
         if step.plan.get("evict"):
             # a hook of this call edits the tree itself (nested structural call): the prescribed log no longer applies,
             # but every hook must still observe the documented before/after state, and the links must stay consistent
@@ -233,6 +245,7 @@ def check_case(case, acc):
     acc.tag("parent_assignments_aborted_by_post_hook", stats["posthook"])
     acc.tag("failed_children_calls_bracket_checked", stats["failed_children"])
     acc.tag("calls_with_a_tree_editing_hook", stats.get("evicting", 0))
+    acc.tag("calls_left_by_an_interrupt_like_BaseException", stats.get("interrupted", 0))
     acc.tag("children_calls_aborted_by_post_detach_while_detaching", stats.get("posthook_children", 0))
 
 
@@ -244,6 +257,12 @@ def plan(tier, seed):
         for spec in ("HNM", "HLM"):
             for i in range(shards):
                 tasks.append({"engine": "enum", "n": n, "spec": spec, "index": i, "count": shards, "pairs": n <= 2 or (n == 3 and tier == "thorough"), "maxlen": None if n <= 3 else 3, "routes": None if n <= 3 else ["parent", "detour"]})
+    # classes that were already in use when they got their hooks (assigned to the class, or a callable per instance)
+    for spec in ("HLateNM", "HLateLM", "HInstNM"):
+        for n in (2, 3):
+            shards = 1 if n < 3 else 4
+            for i in range(shards):
+                tasks.append({"engine": "enum", "n": n, "spec": spec, "index": i, "count": shards, "pairs": False, "maxlen": 2, "routes": ["parent"]})
     examples = 80 if tier == "quick" else 500
     for i in range(nshards):
         tasks.append({"engine": "hyp", "examples": examples, "seed": seed * 1000 + i})
